@@ -624,6 +624,13 @@ def c07_shapes(tier):
     # environment variable values whose first character is not a dash: leading blank, quoted / escaped first word, a free value first
     for words, slots, items, mode in ((['-n', S(0)], ['d2'], ['n=#0'], 1), (["'-n'", S(0), '-f'], ['d2'], ['n=#0', 'f=1'], 0), (['"--name"', S(0)], ['s2'], ['s=$0'], 0), (['\\-f', '-n', S(0)], ['d2'], ['f=1', 'n=#0'], 0)):
         shapes.append(('hx_pa_env', [0, mode], lab('c07/env first character/m%d' % mode, words), {'pa_tmpl': tmpl('ok', items, slots, words)}))
+    # values from the environment variable do not count for the cardinality: a limit of two command line values still allows two
+    for words, items in ((['-v', S(0), S(1), S(2), '\x02', '-v', S(0)], ['v=7,#0,#1,#2,#0']), (['-v', S(0), S(1), '\x02', '-v', S(2), S(0)], ['v=7,#0,#1,#2,#0']), (['-v', S(0) + ',' + S(1), S(2), '\x02', '-v', S(1), '-f'], ['v=7,#0,#1,#2,#1', 'f=1'])):
+        shapes.append(('hx_pa_env', [6, (32 | 8192) << 8], lab('c07/env cardinality', words), {'pa_tmpl': tmpl('ok', items, ['r2:10:19', 'r2:20:29', 'r2:30:39'], words)}))
+    shapes.append(('hx_pa_env', [6, (32 | 8192) << 8], 'c07/env cardinality/three on argv', {'pa_tmpl': tmpl('throw', [], ['d2', 'd2', 'd2'], ['-v', S(0), '\x02', '-v', S(0), S(1), S(2)])}))
+    # the application names the variable itself (mixed case)
+    for words, slots, items in ((['-n', S(0), '-f'], ['d2'], ['n=#0', 'f=1']), (['--name=' + S(0), '\x02', '-g'], ['s2'], ['s=$0', 'g=1'])):
+        shapes.append(('hx_pa_env', [0, 2], lab('c07/env named variable', words), {'pa_tmpl': tmpl('ok', items, slots, words)}))
     shapes.append(('hx_pa_env', [6, 64 << 8], 'c07/env first character/free value first', {'pa_tmpl': tmpl('ok', ['fv=#0', 'f=1'], ['d2'], [S(0), '-f'])}))
     # override: the command line value wins, without a cardinality error
     shapes.append(('hx_pa_env', [0, 0], 'c07/env override', {'pa_tmpl': tmpl('ok', ['n=#1'], ['d2', 'd3'], ['-n', S(0), '\x02', '-n', S(1)])}))
